@@ -106,6 +106,15 @@ def merge_paths(paths, sx=None):
     out = []
     for k in order:
         g = groups[k]
+        if len(g) > 1:
+            # exact duplicates (both arms of a choice on auxiliary data that did not influence anything)
+            seen_g, uniq = set(), []
+            for p in g:
+                fs = frozenset(p.guard)
+                if fs not in seen_g:
+                    seen_g.add(fs)
+                    uniq.append(p)
+            g = uniq
         changed = True
         while changed and len(g) > 1:
             changed = False
@@ -260,6 +269,9 @@ class Summarizer:
         self.cache = {}
         self._loopinfo = {}
         self.stubs = {}
+        # {adt path: set of field indices} of auxiliary fields of the state types (sa/layout.py); None while the layout
+        # itself is being discovered
+        self.aux_fields = getattr(facts, 'aux_fields', None) or {}
 
     # ------------------------------------------------------------------ fresh things
     def fresh(self, base, ty=None):
@@ -424,6 +436,14 @@ class Summarizer:
             return ('closure', v[1], v[2], tuple(self.resolve_deep(st, a, depth + 1) for a in v[3]))
         return v
 
+    def erase_aux(self, v):
+        """an aggregate of a state type with its auxiliary fields replaced by AUX"""
+        if v[0] == 'adt' and self.aux_fields:
+            aux = self.aux_fields.get(v[1])
+            if aux and v[2] == 0:
+                return ('adt', v[1], v[2], tuple(T.AUX if i in aux else f for i, f in enumerate(v[3])))
+        return v
+
     # ------------------------------------------------------------------ memory
     def read_cell(self, st, cell, path):
         v = st.cells.get(cell, UNINIT)
@@ -441,7 +461,7 @@ class Summarizer:
 
     def expand_if_needed(self, st, v, ty, p):
         """A symbolic value that is projected into gets its structure from its type."""
-        if v[0] not in ('sym', 'uninit'):
+        if v[0] not in ('sym', 'uninit') or v == T.AUX:
             return v
         if v[0] == 'sym':
             ty = self.symty.get(v[1], ty)
@@ -480,10 +500,17 @@ class Summarizer:
             fields.append(self.sub_sym(v, suffix, fty))
         if v[0] == 'sym' and not struct:
             st.add_guard(('variant', v, vidx), True)
-        return ('adt', adt_name(ty), vidx, tuple(fields))
+        return self.erase_aux(('adt', adt_name(ty), vidx, tuple(fields)))
 
     def project_value(self, st, v, ty, p, variant):
         k = p[0]
+        if v == T.AUX:
+            # any part of auxiliary data is auxiliary
+            try:
+                pty = self.tenv.project(ty, p, variant) if (ty is not None and k == 'f') else (ty if k == 'v' else (ty or {}).get('inner'))
+            except Exception:
+                pty = None
+            return T.AUX, pty, (p[1] if k == 'v' else None)
         if k == 'f':
             i = p[1]
             if v[0] == 'adt':
@@ -515,7 +542,7 @@ class Summarizer:
         if log and st.writes is not None:
             st.writes.append((cell, path))
         if not path:
-            st.cells[cell] = value
+            st.cells[cell] = self.erase_aux(value) if self.aux_fields else value
             return
         root = st.cells.get(cell, UNINIT)
         st.cells[cell] = self.set_at(st, root, self.celltys.get(cell), path, value)
@@ -523,6 +550,8 @@ class Summarizer:
     def set_at(self, st, v, ty, path, value, variant=None):
         if not path:
             return value
+        if v == T.AUX:
+            return T.AUX      # a write into auxiliary data
         p = path[0]
         k = p[0]
         if k == 'v':
@@ -541,7 +570,10 @@ class Summarizer:
             if v[0] == 'adt':
                 fty = self.tenv.project(ty, p, v[2])
                 fields = list(v[3])
-                fields[i] = self.set_at(st, fields[i], fty, path[1:], value)
+                if self.aux_fields and v[2] == 0 and i in (self.aux_fields.get(v[1]) or ()):
+                    fields[i] = T.AUX
+                else:
+                    fields[i] = self.set_at(st, fields[i], fty, path[1:], value)
                 return ('adt', v[1], v[2], tuple(fields))
             if v[0] == 'tuple':
                 fty = self.tenv.project(ty, p)
@@ -570,6 +602,10 @@ class Summarizer:
         for e in proj:
             if e == '*':
                 v = self.read_cell(st, cell, path)
+                if v == T.AUX:
+                    cid = self.new_heap(None, None)
+                    st.cells[cid] = T.AUX
+                    v = ('ref', cid, ())
                 if v[0] == 'sym':
                     ty = self.symty.get(v[1])
                     if ty is not None and ty.get('k') not in ('ref', 'rawptr', 'param', 'alias', 'other'):
@@ -801,7 +837,7 @@ class Summarizer:
                     return [(st, UNIT)]
                 return [(st, ('tuple', fields))]
             if kind == 'adt':
-                return [(st, ('adt', norm_adt(rv['adt']), rv['variant'], fields))]
+                return [(st, self.erase_aux(('adt', norm_adt(rv['adt']), rv['variant'], fields)))]
             if kind == 'closure':
                 key = None
                 return [(st, ('closure', rv['def'], None, fields))]
@@ -849,11 +885,15 @@ class Summarizer:
             else:
                 lo, hi = 0, (1 << bits) - 1
             return ('bool', not (lo <= r <= hi))
+        if a == T.AUX or b == T.AUX:
+            return T.AUX
         return ('op', 'ovf_' + n, (a, b, ('str', opty.get('k', '?'))))
 
     def eval_discriminant(self, st, fr, place):
         cell, path = self.resolve_place(st, fr, place)
         v = self.read_cell(st, cell, path)
+        if v == T.AUX:
+            return [(st, T.AUX)]
         if v[0] == 'adt':
             return [(st, T.mk_int(self.discr_value(v)))]
         if v[0] in ('sym',):
@@ -943,6 +983,9 @@ class Summarizer:
         k = self.known(st, cond)
         if k is not None:
             return [(st, k)]
+        if cond == T.AUX:
+            # a choice made on auxiliary data: both ways, nothing learnt about the statistics
+            return [(st.copy(), True), (st, False)]
         # conjunctions / disjunctions of comparisons are split so that guards stay atomic
         s_true = st.copy()
         self.assume(s_true, cond, True)
@@ -1138,6 +1181,18 @@ class Summarizer:
                     if v == val:
                         return [self.goto(st, fr, bb)]
                 return [self.goto(st, fr, term['otherwise'])]
+            if d == T.AUX:
+                out = []
+                targets = []
+                for v, bb in arms:
+                    if bb not in targets:
+                        targets.append(bb)
+                if term['otherwise'] not in targets and not self.unreachable_block(fr, term['otherwise']):
+                    targets.append(term['otherwise'])
+                for i, bb in enumerate(targets):
+                    s2 = st if i == len(targets) - 1 else st.copy()
+                    out.append(self.goto(s2, s2.frames[-1], bb))
+                return out
             if term['dty'].get('k') == 'bool':
                 merged = self.try_clamp_merge(st, fr, term, d, arms)
                 if merged is not None:
@@ -1178,6 +1233,8 @@ class Summarizer:
                     return [self.goto(st, fr, term['target'])]
                 st.done = ('panic', term['msg'], self.where(fr, term))
                 return [st]
+            if self.assume_no_overflow and term['msg'].startswith('Overflow') and c == T.AUX:
+                return [self.goto(st, fr, term['target'])]     # arithmetic on auxiliary data
             if self.assume_no_overflow and term['msg'].startswith('Overflow'):
                 # assumed away for the real-mode rules, but remembered: the rule must discharge it on its domain
                 st.events.append(('no_overflow', self.resolve_deep(st, c), self.where(fr, term)))
@@ -1194,6 +1251,23 @@ class Summarizer:
         if k == 'call':
             return self.exec_call(st, fr, term)
         raise Unsupported('terminator %s at %s' % (k, self.where(fr, term)))
+
+    def unreachable_block(self, fr, bb):
+        b = fr.body['blocks'][bb]
+        return not b['stmts'] and b['term']['k'] == 'unreachable'
+
+    def aux_arg(self, st, a, depth=0):
+        """the argument is auxiliary data, or a reference to auxiliary data"""
+        if a == T.AUX:
+            return True
+        if a[0] == 'ref' and depth < 4:
+            try:
+                return self.aux_arg(st, self.read_cell(st, a[1], a[2]), depth + 1)
+            except (Infeasible, Unsupported, KeyError):
+                return False
+        if a[0] == 'op' and a[1] == 'ref':
+            return self.aux_arg(st, a[2][0], depth + 1)
+        return False
 
     def do_return(self, st, fr):
         v = st.cells.get((fr.fid, 0), UNIT)
